@@ -22,7 +22,8 @@ ASSUMPTIONS = [
     'Path::join/file_name/exists and File::create from std behave as documented (a TOCTOU race between exists and create is outside the rule)',
 ]
 MANIFEST = {'text': 'proof (dominators, must-pass-through, provenance) of: no-overwrite and confinement of auto-save, Complete only from the size/sequence-checked sites, payload appended only for the expected package '
-                    'with paired counters, only Complete transfers reach the save table.'}
+                    'with paired counters, only Complete transfers reach the save table.'
+                    ' Added: Complete on the data path requires size equality on every path; whenever the received-payload counter advances the package is appended (unless nothing is kept).'}
 
 MOD = 'adlt::plugins::file_transfer::'
 CREATE = re.compile(r'^(std::fs::File::create|std::fs::File::create_new|std::fs::OpenOptions::open|std::fs::write|std::fs::File::options|std::fs::rename|std::fs::copy|std::fs::remove_file)$')
